@@ -48,14 +48,17 @@ fn run_case(m: usize, hist: usize, script: &[u64]) -> Option<(String, String)> {
     let b2 = draws(&mut fresh, &mut r1, m);
     if !is_perm(&b2, m) { return Some((format!("second block without reset: {:?}", b2), format!("a permutation of 0..{m}"))); }
     // history, reset, same script
+    // several different histories per case (what survives a partial reset depends on the permutation the history left behind)
+    for hs in 0u64..8 {
     let mut used = FYshuffle::new(m);
-    let mut rh = ScriptRng { vals: vec![7, 3, 11, 0, 5], pos: 0 };
+    let mut rh = ScriptRng { vals: vec![(7 + 5 * hs) % G, (3 + 7 * hs) % G, (11 + hs) % G, (hs * 3) % G, (5 + 11 * hs) % G, (1 + hs * hs) % G, (9 + 2 * hs) % G], pos: 0 };
     let _ = draws(&mut used, &mut rh, hist);
     used.reset();
     let mut r2 = ScriptRng { vals: script.to_vec(), pos: 0 };
     let c1 = draws(&mut used, &mut r2, m);
-    if c1 != b1 { return Some((format!("after {hist} draws and reset: {:?}", c1), format!("{:?} (fresh shuffle, same generator output)", b1))); }
+    if c1 != b1 { return Some((format!("after {hist} draws (history script {hs}) and reset: {:?}", c1), format!("{:?} (fresh shuffle, same generator output)", b1))); }
     if used.get_values() != &c1 { return Some((format!("get_values() = {:?}", used.get_values()), format!("{:?}", c1))); }
+    }
     None
 }
 
@@ -104,7 +107,8 @@ fn verif_replay_c17() {
         for code in 0..total {
             let mut c = code;
             let script: Vec<u64> = (0..m).map(|_| { let t = c % G; c /= G; t }).collect();
-            for hist in [0usize, 1, m / 2 + 1, m, m + 2] {
+            // every number of draws before the reset from 0 to 3m+1 (wrap-arounds inside next included)
+            for hist in 0..=(3 * m + 1) {
                 cases += 1;
                 let w = serde_json::json!({"kind": "block", "m": m, "history_draws": hist, "script": script});
                 if code % 997 == 0 { progress(&w); }
